@@ -51,7 +51,8 @@ CONSTANTS Topos,      \* topology names to enumerate
           Choices,    \* indices into the coupling-block catalogue
           Seeds,      \* seeds of the non-coupling blocks
           RuleSets,   \* subset of {"asread", "r3", "repaired"}: selection rules enumerated (inst.rules)
-          PreSets,    \* subset of {"fresh", "newton"}: state of the disciplines before the first request (inst.pre)
+          PreSets,    \* subset of {"fresh", "newton", "newtonall"}: state of the disciplines before the first
+                      \* request (inst.pre)
           MaxHist,    \* number of successive requests on the same assembly
           ReqMod, ReqRes,   \* explore request r of instance i iff (hash(i) + hash(r)) % ReqMod \in ReqRes
           AdjMod,     \* thinning of the second requests adjacent to the first one (see Next)
@@ -329,13 +330,30 @@ NewtonDio(S) ==
          co == S[d].outs \cap GroupC(S, g)
      IN  IF Merged(S, g) /\ ci # {} /\ co # {} THEN [i |-> ci, o |-> co] ELSE [i |-> {}, o |-> {}]]
 
+\* A Newton MDA over the WHOLE structure (MDANewtonRaphson, MDAGSNewton; accepted only when every
+\* discipline is strongly coupled) resolves all the strong couplings at once: a discipline is also
+\* linearized with respect to the strong couplings it reads from ANOTHER group.  Differs from
+\* NewtonDio only when there are several groups; enumerated only then (pre = "newtonall").
+NewtonAllDio(S) ==
+  [d \in 1..Len(S) |->
+     LET ci == S[d].ins \cap StrongC(S)
+         co == S[d].outs \cap StrongC(S)
+     IN  IF ci # {} /\ co # {} THEN [i |-> ci, o |-> co] ELSE [i |-> {}, o |-> {}]]
+WholeNewtonDiffers(S) ==
+  /\ \A g \in Nodes(S) : Merged(S, g)
+  /\ Cardinality(Nodes(S)) > 1
+
 Init ==
   /\ \E t \in Topos :
      \E p \in {q % (2 ^ Cardinality(AllIns(Topo(t)) \cup AllOuts(Topo(t)))) : q \in Profiles} :
        /\ \E cb \in [CPairs(Topo(t)) -> Choices] :
             /\ Unimod(t, p, cb)
-            /\ \E sd \in Seeds, rl \in RuleSets, pr \in PreSets : inst = WithAll(Build(t, p, cb, sd), rl, pr)
-  /\ dio = IF inst.pre = "newton" THEN NewtonDio(inst.S) ELSE NoDio(inst.S)
+            /\ \E sd \in Seeds, rl \in RuleSets, pr \in PreSets :
+                 /\ (pr = "newtonall" => WholeNewtonDiffers(Topo(t)))
+                 /\ inst = WithAll(Build(t, p, cb, sd), rl, pr)
+  /\ dio = IF inst.pre = "newton" THEN NewtonDio(inst.S)
+           ELSE IF inst.pre = "newtonall" THEN NewtonAllDio(inst.S)
+           ELSE NoDio(inst.S)
   /\ last = <<{}, {}>>
   /\ mc = {}
   /\ hist = <<>>
